@@ -267,6 +267,9 @@ func drawDuration(rt *rapid.T, label string) time.Duration {
 // drawAdvance draws a clock step from a mixture around the configured durations.
 func (w *cbWorld) drawAdvance(rt *rapid.T) time.Duration {
 	base := []time.Duration{w.cfg.fallback, w.cfg.recovery, w.cfg.checkPeriod}[rapid.IntRange(0, 2).Draw(rt, "adv-base")]
+	if base <= 1 {
+		base = time.Millisecond // a check period of zero: the condition is evaluated at every completion at a later instant
+	}
 	switch rapid.IntRange(0, 11).Draw(rt, "adv-kind") {
 	case 0:
 		return 1
@@ -522,7 +525,20 @@ func minu(a, b uint64) uint64 {
 // yieldLogger is a utils.Logger whose calls take time: each one is a yield point.
 type yieldLogger struct{ sim *simrt.Sim }
 
-func (l yieldLogger) Debug(string, ...interface{}) { l.sim.Yield() }
-func (l yieldLogger) Info(string, ...interface{})  { l.sim.Yield() }
-func (l yieldLogger) Warn(string, ...interface{})  { l.sim.Yield() }
-func (l yieldLogger) Error(string, ...interface{}) { l.sim.Yield() }
+// like a real logger it renders its arguments: the breaker logs itself with %v, also while it holds its lock
+func (l yieldLogger) log(f string, a []interface{}) {
+	_ = fmt.Sprintf(f, a...)
+	l.sim.Yield()
+}
+func (l yieldLogger) Debug(f string, a ...interface{}) { l.log(f, a) }
+func (l yieldLogger) Info(f string, a ...interface{})  { l.log(f, a) }
+func (l yieldLogger) Warn(f string, a ...interface{})  { l.log(f, a) }
+func (l yieldLogger) Error(f string, a ...interface{}) { l.log(f, a) }
+
+// drawCheckPeriod: like the other durations, and now and then zero (evaluate whenever the clock has moved on).
+func drawCheckPeriod(rt *rapid.T) time.Duration {
+	if rapid.IntRange(0, 7).Draw(rt, "check-period-zero") == 0 {
+		return 0
+	}
+	return drawDuration(rt, "check-period")
+}
